@@ -2,7 +2,8 @@
 # Theorems: coq/Properties/C08.v (at most once; results match starts; nothing outside the graph) + C09 (the graph is the
 # closure). Correspondence: real actors vs Actor.actor_step projected on script starts and requests/acknowledgements; system
 # runs counting start lines on graphs with shared dependencies, duplicate roots and duplicate dependency entries, with planted
-# state files for the targets outside the closure.
+# state files for the targets outside the closure; 40% of the runs are `zinoma --clean T...` (the planted state of targets
+# outside the closure must survive the clean phase too).
 from slices import actor, engine
 
 
@@ -12,7 +13,7 @@ def keep(o):
 
 def run(ck):
     engine.check_engine(ck, 'C08', actor.proj(keep_out=keep, keys=('starts',)),
-                        'script starts + requests to dependencies + Ok messages sent', fail_p=0.1)
+                        'script starts + requests to dependencies + Ok messages sent', fail_p=0.1, clean_p=0.4)
 
 
 def replay(ck, path):
